@@ -147,6 +147,14 @@ where
     StargateT: Stargate,
 {
     fn raw_query(&self, bin_request: &[u8]) -> QuerierResult {
+        #[cfg(feature = "verif")]
+        if crate::verif::monitor_enter() {
+            let pre = crate::verif::monitor_digest(&self.storage);
+            let res = self.raw_query(bin_request);
+            let post = crate::verif::monitor_digest(&self.storage);
+            crate::verif::monitor_leave("query", "raw_query", true, pre, post);
+            return res;
+        }
         self.router
             .querier(&self.api, &self.storage, &self.block)
             .raw_query(bin_request)
@@ -441,6 +449,14 @@ where
         sender: Addr,
         msgs: Vec<CosmosMsg<CustomT::ExecT>>,
     ) -> AnyResult<Vec<AppResponse>> {
+        #[cfg(feature = "verif")]
+        if crate::verif::monitor_enter() {
+            let pre = crate::verif::monitor_digest(&self.storage);
+            let res = self.execute_multi(sender, msgs);
+            let post = crate::verif::monitor_digest(&self.storage);
+            crate::verif::monitor_leave("tx", "execute_multi", res.is_ok(), pre, post);
+            return res;
+        }
         // we need to do some caching of storage here, once in the entry point:
         // meaning, wrap current state, all writes go to a cache, only when execute
         // returns a success do we flush it (otherwise drop it)
@@ -467,6 +483,14 @@ where
         contract_addr: U,
         msg: &T,
     ) -> AnyResult<AppResponse> {
+        #[cfg(feature = "verif")]
+        if crate::verif::monitor_enter() {
+            let pre = crate::verif::monitor_digest(&self.storage);
+            let res = self.wasm_sudo(contract_addr, msg);
+            let post = crate::verif::monitor_digest(&self.storage);
+            crate::verif::monitor_leave("tx", "wasm_sudo", res.is_ok(), pre, post);
+            return res;
+        }
         let msg = WasmSudo {
             contract_addr: contract_addr.into(),
             message: to_json_binary(msg)?,
@@ -488,6 +512,14 @@ where
     /// This will create a cache before the execution, so no state changes are persisted if this
     /// returns an error, but all are persisted on success.
     pub fn sudo(&mut self, msg: SudoMsg) -> AnyResult<AppResponse> {
+        #[cfg(feature = "verif")]
+        if crate::verif::monitor_enter() {
+            let pre = crate::verif::monitor_digest(&self.storage);
+            let res = self.sudo(msg);
+            let post = crate::verif::monitor_digest(&self.storage);
+            crate::verif::monitor_leave("tx", "sudo", res.is_ok(), pre, post);
+            return res;
+        }
         // we need to do some caching of storage here, once in the entry point:
         // meaning, wrap current state, all writes go to a cache, only when execute
         // returns a success do we flush it (otherwise drop it)
